@@ -11,6 +11,11 @@ POOL = {
     "two_stmts": "x = 1\nprint(x + 1)\n",
     "if_else": "x = 3\nif x > 2:\n    print('big')\nelse:\n    print('small')\nif x < 2:\n    print('tiny')\n",
     "if_falsy_body": "x = 0\nif x == 0:\n    x\nelse:\n    print('else')\nprint('end')\n",
+    "if_interrupt_else": "def f(xs):\n    out = []\n    for x in xs:\n        if x % 2:\n            continue\n        else:\n            out.append(x)\n        if x > 4:\n            break\n        else:\n            out.append(-x)\n    if not out:\n        return\n    else:\n        out.append('end')\n    return out\nprint(f([1, 2, 3, 6, 8]), f([1]), f([]))\n",
+    # interrupts in TAIL position (nothing follows in the loop / function: they lower to nothing)
+    "if_interrupt_else_tail": "def g(c):\n    if c:\n        return\n    else:\n        print('else of return', c)\ndef h(c):\n    for i in range(2):\n        if c:\n            break\n        else:\n            print('else of break', i)\n    else:\n        if c:\n            pass\n        else:\n            print('loop else', c)\nfor n in range(4):\n    if n % 2:\n        continue\n    else:\n        print('even', n)\nk = 0\nwhile k < 3:\n    k += 1\n    if k == 2:\n        continue\n    elif k == 3:\n        pass\n    else:\n        print('first', k)\ng(1), g(0), h(1), h(0)\n",
+    "falsy_branch_values": "g = 5\ndef f(c):\n    global g\n    if c:\n        g = 0\n    elif c is None:\n        g = ''\n    else:\n        g = 7\n    return g\nclass K:\n    n = None\n    z = 0\n    e = []\n    m = n\n    y = z\n    d = e\n    if z == 0:\n        w: int\n        w = 0\n    else:\n        w = 1\nn = 'global n'\nz = 'global z'\nprint(f(1), f(None), f(0), K.m, K.y, K.d, K.w)\n",
+    "surrogates_and_odd_text": "s = '\\ud800\\udfff\\udc00\\ud7ff\\ue000'\nt = 'a\\x00b\\x7f\\x85\\u2028\\ufeff'\nprint(len(s), len(t), [hex(ord(c)) for c in s + t])\n",
     "elif_chain": "for x in range(4):\n    if x == 0:\n        print('a')\n    elif x == 1:\n        print('b')\n    elif x == 2:\n        pass\n    else:\n        print('d')\n",
     "while_loop": "i = 0\nwhile i < 3:\n    print(i)\n    i += 1\n",
     "while_break_else": "i = 0\nwhile i < 5:\n    i += 1\n    if i == 3:\n        break\nelse:\n    print('no break')\nprint(i)\n",
@@ -54,6 +59,8 @@ VERSION_SENSITIVE = {
     "vs_walrus_comp": "print([(q := e * 2) for e in range(3)], q, [e for e in range(4) if (r := e) % 2], r)\n",
     "vs_walrus_genexp_sole_argument": "data = [3, 1, 2]\nprint(sum((seen := v) for v in data), seen, max((w := v * 2) for v in data if (u := v) > 1), w, u, list((z := v) for v in data), z, sorted(((q := v), -v) for v in data), q)\n",
     "vs_walrus_everywhere": "d = {}\nl = [0, 1, 2, 3]\nf = lambda a, b=0: (a, b)\nprint((a := 1), f((b := 2)), f(1, b=(c := 3)), [(e := 4)], ((g := 5),), {'k': (h := 6)}, {(i := 7): 1}, l[(j := 1):(k := 3)], l[(m := 2)], f'{(n := 8)}', (o := 9) if (p := 1) else (r := 0), (lambda: (s := 10))(), not (t := 0), -(u := 11), (v := 12) + (w := 13), (x := 1) < (y := 2) < (z := 3))\nprint(a, b, c, e, g, h, i, j, k, m, n, o, p, t, u, v, w, x, y, z)\n",
+    "vs_lambda_star_names_shadow": "def f(kw, a):\n    def bump():\n        nonlocal kw, a\n        kw, a = kw + 1, a + 1\n    bump()\n    g = lambda *a, **kw: (a, sorted(kw))\n    return g(1, z=2), kw, a\nclass K:\n    kw = 'member'\n    a = 'member-a'\n    h = staticmethod(lambda *a, **kw: (a, sorted(kw)))\n    r = h(3, y=4)\nprint(f(1, 2), K.r, K.kw)\n",
+    "vs_set_and_inplace_operators": "s = {1, 2}\nt = s\ns |= {2, 3}\nprint(sorted(s))\ns ^= {1, 4}\nprint(sorted(s))\ns &= {2, 3, 9}\nprint(sorted(s))\ns -= {9, 2}\nl = [1]\nm = l\nl += [2]\nl *= 2\nd = {'a': 1}\ne = d\nd.update(b=2)\nx = 6\nx ^= 3\nx |= 8\nx &= 13\nx <<= 2\nx >>= 1\nx **= 2\nx //= 5\nx %= 7\nx -= 1\nprint(sorted(s), t is s, l, m is l, sorted(d), e is d, x)\n",
     "vs_star_index": "d = {(0, 1): 7}\np = (0,)\nprint(d[(*p, 1)])\n",
     "vs_star_return_tuple": "def f(a):\n    return (*a, 1)\nprint(f([3]), [*range(2), *'ab'], {**{'k': 1}, 'j': 2})\n",
     "vs_posonly": "def f(a, b=2, /, c=3, *, d=4):\n    return (a, b, c, d)\ng = lambda x, y=1, /, z=2: (x, y, z)\nprint(f(1), f(1, 5, d=0), g(0), g(1, 2, z=3))\n",
